@@ -47,8 +47,9 @@ static ares_status_t ares_nameoffset_create(ares_llist_t **list,
   ares_status_t      status;
   ares_nameoffset_t *off = NULL;
 
-  if (list == NULL || name == NULL || ares_strlen(name) == 0 ||
-      ares_strlen(name) > 255) {
+  /* NOTE: the presentation form of a valid name may be longer than 255
+   *       characters, each escaped octet takes up to 4. */
+  if (list == NULL || name == NULL || ares_strlen(name) == 0) {
     return ARES_EFORMERR; /* LCOV_EXCL_LINE: DefensiveCoding */
   }
 
